@@ -707,10 +707,14 @@ func ruleSGNames(c *Ctx) {
 		}
 		var all []*CallSite
 		for _, g := range group {
+			// what the helpers themselves call to do their work is not a second helper
+			if len(g.Params) == 1 && typeKey(g.Params[0].Type()) == "reflect.StructField" {
+				continue
+			}
 			all = append(all, callsIn(g)...)
 		}
 		for _, cs := range all {
-			if cs.Static == nil || !P.isModuleFunc(cs.Static) || cs.Value() == nil || len(cs.Static.Params) != 1 {
+			if cs.Static == nil || !P.isModuleFunc(cs.Static) || cs.Value() == nil || len(cs.Static.Params) != 1 || cs.Static.Signature.Results().Len() != 1 {
 				continue
 			}
 			if typeKey(cs.Static.Params[0].Type()) != "reflect.StructField" {
@@ -1074,6 +1078,9 @@ func mutableStateOperand(P *Program, in ssa.Instruction) *ssa.Global {
 		}
 		if _, guarded := guardedBy[globalKey(g)]; guarded {
 			continue
+		}
+		if initOnlyGlobals[g] {
+			continue // a table filled at initialisation and only read afterwards is not state
 		}
 		if isMutableContainer(g.Type().(*types.Pointer).Elem(), 0) {
 			return g
